@@ -226,6 +226,19 @@ def body(prop, args, seed, t0):
                     tie_broken("translated_check_opaque", bad3, "translator disagreement (opaque objects)")
         # --- T3 end
 
+        # --- T12: the translated circuit container / `_lift_matrix` composition (C01) and the index helpers of `get_pauliop_from_matrix`
+        # (C09) (harness/specs_t12.py, rendered by harness/translate_t12.py) are run in the driver (tag "TRT12") on stand-in operations /
+        # circuits / free matrix terms and compared with the Python functions they came from (harness/translated_check_t12.py)
+        from harness import translated_check_t12 as _t12
+        if prop in _t12.props() and driver.available() and (build_ok or common.lake_build(["oqdriver"])[0]):
+            n12, bad12, untr12, dropped12 = _t12.run(seed, only=prop)
+            tie["translated_t12_vs_python_function"] = n12
+            tie["translated_t12_not_compared"] = dropped12
+            tie["untranslatable_now"] = list(tie.get("untranslatable_now", [])) + untr12
+            if bad12:
+                tie_broken("translated_check_t12", bad12, "translator disagreement (circuit container / embedding)")
+        # --- T12 end
+
         # --- T5: the METHOD translator (harness/translate_state.py): the translated runner classes of C14 are run against the real
         # classes on seeded call histories (harness/runners_check.py); a disagreement is a fault of the machinery
         if prop == "C14" and driver.available():
